@@ -4,6 +4,7 @@ import Mp.DepsExact
 import Mp.CueDeps
 import Mp.Tree
 import Mp.CueWalk
+import Mp.CueAstProofs
 /-! C15 — property theorems (proved in the imported modules; statements are checked there, axioms audited here). -/
 #print axioms Deps.closure_sound
 #print axioms Deps.closure_complete
@@ -36,3 +37,9 @@ import Mp.CueWalk
 #print axioms Mp.unavailable_iff
 #print axioms Mp.below_root_keys_not_checked
 #print axioms Mp.only_first_key_checked
+#print axioms Mp.finishKeys_blocked
+#print axioms Mp.stopped_keeps
+#print axioms Mp.keys_blocked
+#print axioms Mp.blocked_head_errs
+#print axioms Mp.blocked_head_never_accepted
+#print axioms Mp.accepted_head_not_blocked
